@@ -191,6 +191,11 @@ def jobs(tier, seed):
         cfg = {'kind': kind, 'rate': 8192 if kind == 'DRR' else 8, 'table': t, 'flows': [0, 1, 0, 1, 1, 0, 0, 1][:m], 'sorts': 'int',
                'burst': [0, 1, 1, 1, 0, 1, 1, 1][:m], 'smax': 2 if kind != 'DRR' else 1600}
         js.append({'harness': 'rr', 'cfg': cfg, 'weight': 60, 'opts': {'max_paths': 20000}})
+    # very long visits: a weight of 10 (WRR) and 13 packets handed in at one instant
+    for kind, t in (('WRR', {0: 10, 1: 1}), ('RR', {0: 1, 1: 1}), ('WRR', {0: 1, 1: 12})):
+        cfg = {'kind': kind, 'rate': 8, 'table': t, 'flows': [0] * 11 + [1, 1] if t[0] >= t[1] else [1] * 11 + [0, 0], 'sorts': 'int',
+               'burst': [0] + [1] * 12, 'smax': 2}
+        js.append({'harness': 'rr', 'cfg': cfg, 'weight': 60, 'opts': {'max_paths': 6000}})
     # weight tables without a unit weight (WRR: the allowance is the weight itself; DRR: quantum 1500*w/min(w))
     for kind, t in (('WRR', {0: 2, 1: 3}), ('WRR', {0: 3, 1: 2}), ('DRR', {0: 2, 1: 3})):
         cfg = {'kind': kind, 'rate': 8192, 'table': t, 'flows': [0, 0, 0, 1, 1, 1, 1, 0][:8 if kind == 'WRR' else 5], 'sorts': 'int',
